@@ -60,6 +60,13 @@ const OPTS: &[(&str, &[&str])] = &[
     ("datafusion.execution.hash_join_buffering_capacity", &["", "1", "1048576"]),
 ];
 
+/// overrides tried on a query that fails the oracle (see run_case)
+const SUSPECTS: &[(&str, &str)] = &[
+    ("datafusion.optimizer.enable_join_dynamic_filter_pushdown", "false"),
+    ("datafusion.optimizer.prefer_hash_join", "true"),
+    ("datafusion.optimizer.repartition_sorts", "false"),
+];
+
 #[derive(Clone)]
 struct Cfg {
     tp: usize,
@@ -242,13 +249,13 @@ fn main() {
             let mut c = cfgs[only_cfg as usize].clone();
             let tp = arg(&args, "--tp", ""); if !tp.is_empty() { c.tp = tp.parse().unwrap(); }
             let bs = arg(&args, "--bs", ""); if !bs.is_empty() { c.bs = bs.parse().unwrap(); }
+            if args.iter().any(|a| a == "--unset-all") { c.opts.clear(); }
             for kv in arg(&args, "--set", "").split(',').filter(|x| !x.is_empty()) {
                 let (k, v) = kv.split_once('=').unwrap();
                 c.opts.retain(|(k2, _)| k2 != k);
                 c.opts.push((k.to_string(), v.to_string()));
             }
             for k in arg(&args, "--unset", "").split(',').filter(|x| !x.is_empty()) { c.opts.retain(|(k2, _)| k2 != k); }
-            if args.iter().any(|a| a == "--unset-all") { c.opts.clear(); }
             if args.iter().any(|a| a == "--plain-layout") { c.layout = plain_layout(&tabs); }
             if args.iter().any(|a| a == "--noconc") { c.concurrent = false; }
             cfgs = vec![cfgs[0].clone(), c];
@@ -288,24 +295,94 @@ fn run_case(rt: &tokio::runtime::Runtime, id: &str, stream: &str, kind: &str, ta
                 if !same(kind, &runs[a].1, &runs[b].1) { ok = false; diff = format!("[{a},{b}]"); break 'outer; }
             }
         }
+        // a query that fails the oracle is re-run with each SUSPECT override applied to every configuration: the driver
+        // attributes the failure to a listed known finding only if the override makes all configurations agree
+        let mut suspects = vec![];
+        if !ok {
+            for (k, v) in SUSPECTS {
+                let mut outs: Vec<Out> = vec![];
+                for c in cfgs {
+                    let mut c2 = c.clone();
+                    c2.opts.retain(|(k2, _)| k2 != k);
+                    c2.opts.push((k.to_string(), v.to_string()));
+                    c2.concurrent = false;
+                    let res = catch_unwind(AssertUnwindSafe(|| -> Out {
+                        let ctx = session(&c2, tabs)?;
+                        rt.block_on(exec(&ctx, sql, false))
+                    }));
+                    outs.push(match res { Ok(o) => o, Err(_) => Err("panic".into()) });
+                }
+                let all_same = (1..outs.len()).all(|i| same(kind, &outs[0], &outs[i]));
+                let first = match &outs[0] { Ok(rows) => format!("{{\"rows\":[{}]}}", rows.join(",")), Err(e) => format!("{{\"err\":{}}}", json_str(e)) };
+                suspects.push(format!("{{\"opt\":{},\"ok\":{all_same},\"out\":{first}}}", json_str(&format!("{k}={v}"))));
+            }
+        }
         let runs_json = runs.iter().map(|(ci, o, p)| {
             let out = match o { Ok(rows) => format!("{{\"rows\":[{}]}}", rows.join(",")), Err(e) => format!("{{\"err\":{}}}", json_str(e)) };
             format!("{{\"cfg\":{ci},\"out\":{out},\"panic\":{p}}}")
         }).collect::<Vec<_>>().join(",");
-        println!("{{\"id\":{},\"stream\":\"{stream}\",\"kind\":\"{kind}\",\"tables\":{},\"q\":{qj},\"sql\":{},\"cfgs\":[{}],\"runs\":[{runs_json}],\"diff\":{diff},\"ok\":{ok}}}",
-            json_str(id), tables_json(tabs), json_str(sql), cfgs.iter().map(cfg_json).collect::<Vec<_>>().join(","));
+        println!("{{\"id\":{},\"stream\":\"{stream}\",\"kind\":\"{kind}\",\"tables\":{},\"q\":{qj},\"sql\":{},\"cfgs\":[{}],\"runs\":[{runs_json}],\"suspects\":[{}],\"diff\":{diff},\"ok\":{ok}}}",
+            json_str(id), tables_json(tabs), json_str(sql), cfgs.iter().map(cfg_json).collect::<Vec<_>>().join(","), suspects.join(","));
     }
 }
 
 // ---------------------------------------------------------------- fixed witness cases of the listed known findings
 struct Wit { id: &'static str, kind: &'static str, tabs: Vec<Tab>, sql: &'static str, qjson: &'static str, cfgs: Vec<Cfg> }
 
-fn ints(rows: &[&[Option<i64>]]) -> Vec<Vec<V>> {
-    rows.iter().map(|r| r.iter().map(|v| match v { Some(z) => V::I(*z), None => V::Null }).collect()).collect()
+fn iv(v: Option<i64>) -> V { match v { Some(z) => V::I(z), None => V::Null } }
+fn sv(v: Option<&str>) -> V { match v { Some(z) => V::S(z.to_string()), None => V::Null } }
+fn bv(v: Option<bool>) -> V { match v { Some(z) => V::B(z), None => V::Null } }
+fn cfg(tabs: &[Tab], tp: usize, opts: &[(&str, &str)]) -> Cfg {
+    Cfg { tp, bs: 8192, opts: opts.iter().map(|(k, v)| (k.to_string(), v.to_string())).collect(), layout: plain_layout(tabs), concurrent: false }
 }
 
 fn witnesses() -> Vec<Wit> {
-    vec![]
+    let mut w = vec![];
+    // KF-C02-1: SortMergeJoinExec (prefer_hash_join = false) with a join filter over the output of another join panics
+    // (sort_merge_join/filter.rs get_filter_columns: index out of bounds) as soon as target_partitions >= 2
+    let t = vec![Tab { types: vec![Ty::Int, Ty::Int], parts: 1,
+        rows: vec![vec![iv(Some(2)), iv(Some(-1))], vec![iv(Some(0)), iv(Some(1))], vec![iv(Some(1)), iv(None)], vec![iv(Some(2)), iv(Some(2))], vec![iv(None), iv(None)]] }];
+    let cfgs = vec![cfg(&t, 1, &[]), cfg(&t, 1, &[("datafusion.optimizer.prefer_hash_join", "false")]), cfg(&t, 2, &[("datafusion.optimizer.prefer_hash_join", "false")])];
+    w.push(Wit { id: "witness-KF-C02-1", kind: "bag", tabs: t, cfgs,
+        sql: "SELECT a3.c0 AS r0 FROM t0 AS a3 RIGHT JOIN t0 AS a4 ON ((a3.c0 = a4.c0) AND (a4.c1 < 0)) INNER JOIN t0 AS a5 ON ((a3.c1 = a5.c1) AND ((a5.c0 = 2) OR (a4.c0 IS NULL)))",
+        qjson: "[\"project\",[[\"col\",0,0]],[\"join\",\"inner\",4,2,[\"and\",[\"cmp\",\"=\",[\"col\",0,1],[\"col\",0,5]],[\"or\",[\"cmp\",\"=\",[\"col\",0,4],[\"lit\",2]],[\"isnull\",false,[\"col\",0,2]]]],[\"join\",\"right\",2,2,[\"and\",[\"cmp\",\"=\",[\"col\",0,0],[\"col\",0,2]],[\"cmp\",\"<\",[\"col\",0,3],[\"lit\",0]]],[\"table\",0],[\"table\",0]],[\"table\",0]]]" });
+    // KF-C02-2: join dynamic filter pushdown (on by default) through a HashJoinExec that carries an embedded projection,
+    // below a SortExec pushed under the joins: the plan chosen for target_partitions = 1 returns no row at all
+    let t = vec![
+        Tab { types: vec![Ty::Int, Ty::Str], parts: 1, rows: vec![vec![iv(None), sv(Some(""))], vec![iv(Some(1)), sv(Some("a"))], vec![iv(Some(0)), sv(Some("a"))], vec![iv(None), sv(Some("c"))]] },
+        Tab { types: vec![Ty::Int, Ty::Str, Ty::Bool], parts: 1, rows: vec![
+            vec![iv(Some(2)), sv(Some("a")), bv(Some(false))], vec![iv(Some(2)), sv(Some("b")), bv(Some(true))], vec![iv(Some(2)), sv(Some("b")), bv(Some(false))],
+            vec![iv(Some(-1)), sv(None), bv(Some(true))], vec![iv(Some(3)), sv(Some("a")), bv(Some(false))], vec![iv(Some(-1)), sv(Some("c")), bv(Some(true))],
+            vec![iv(None), sv(Some("b")), bv(Some(true))], vec![iv(Some(1)), sv(Some("b")), bv(None)]] }];
+    let cfgs = vec![cfg(&t, 1, &[]), cfg(&t, 2, &[]), cfg(&t, 1, &[("datafusion.optimizer.enable_join_dynamic_filter_pushdown", "false")])];
+    w.push(Wit { id: "witness-KF-C02-2", kind: "sort", tabs: t, cfgs,
+        sql: "SELECT a2.c0 AS r0, a3.c0 AS r1, a3.c1 AS r2, a4.c0 AS r3 FROM t0 AS a2 CROSS JOIN t1 AS a3 INNER JOIN t0 AS a4 ON (a3.c1 = a4.c1) WHERE (a3.c0 IN (SELECT a6.c0 FROM (VALUES (2)) AS a6(c0))) ORDER BY a3.c0 ASC NULLS LAST",
+        qjson: "[\"sort\",[[[\"col\",0,1],false,false]],[\"project\",[[\"col\",0,0],[\"col\",0,2],[\"col\",0,3],[\"col\",0,5]],[\"filter\",[\"insub\",false,[\"col\",0,2],[\"project\",[[\"col\",0,0]],[\"values\",[[2]]]]],[\"join\",\"inner\",5,2,[\"cmp\",\"=\",[\"col\",0,3],[\"col\",0,6]],[\"join\",\"cross\",2,3,[\"lit\",true],[\"table\",0],[\"table\",1]],[\"table\",0]]]]]" });
+    // KF-C02-3: SortMergeJoinExec outer join with a join filter returns other rows than the hash join
+    let t = vec![Tab { types: vec![Ty::Int, Ty::Str, Ty::Bool], parts: 1, rows: vec![
+        vec![iv(Some(-1)), sv(None), bv(Some(true))], vec![iv(Some(2)), sv(Some("b")), bv(Some(true))], vec![iv(Some(1)), sv(Some("a")), bv(Some(false))]] }];
+    let cfgs = vec![cfg(&t, 1, &[]), cfg(&t, 3, &[]), cfg(&t, 3, &[("datafusion.optimizer.prefer_hash_join", "false")])];
+    w.push(Wit { id: "witness-KF-C02-3", kind: "bag", tabs: t, cfgs,
+        sql: "SELECT COALESCE(a2.c1, a2.c1) AS r0 FROM t0 AS a1 FULL JOIN t0 AS a2 ON ((a1.c0 = a2.c0) AND ((-1) >= CAST(NULL AS BIGINT)))",
+        qjson: "[\"project\",[[\"coalesce\",[[\"col\",0,4],[\"col\",0,4]]]],[\"join\",\"full\",3,3,[\"and\",[\"cmp\",\"=\",[\"col\",0,0],[\"col\",0,3]],[\"cmp\",\">=\",[\"lit\",-1],[\"lit\",null]]],[\"table\",0],[\"table\",0]]]" });
+    // KF-C02-4: SortMergeJoinExec LEFT JOIN against a VALUES relation: the NULL padding violates the declared schema
+    let t = vec![Tab { types: vec![Ty::Int, Ty::Int], parts: 1, rows: vec![
+        vec![iv(Some(-1)), iv(None)], vec![iv(Some(3)), iv(None)], vec![iv(Some(2)), iv(Some(3))], vec![iv(Some(1)), iv(Some(3))]] }];
+    let cfgs = vec![cfg(&t, 1, &[]), cfg(&t, 2, &[]), cfg(&t, 2, &[("datafusion.optimizer.prefer_hash_join", "false")])];
+    w.push(Wit { id: "witness-KF-C02-4", kind: "bag", tabs: t, cfgs,
+        sql: "SELECT a1.c1 AS r0, (-1) AS r1 FROM t0 AS a1 LEFT JOIN (VALUES (2)) AS a2(c0) ON ((a1.c1 = a2.c0) AND ((a2.c0 IS NOT DISTINCT FROM a1.c1) OR (a1.c1 >= a1.c1)))",
+        qjson: "[\"project\",[[\"col\",0,1],[\"lit\",-1]],[\"join\",\"left\",2,1,[\"and\",[\"cmp\",\"=\",[\"col\",0,1],[\"col\",0,2]],[\"or\",[\"distinct\",true,[\"col\",0,2],[\"col\",0,1]],[\"cmp\",\">=\",[\"col\",0,1],[\"col\",0,1]]]],[\"table\",0],[\"values\",[[2]]]]]" });
+    // KF-C02-5: ORDER BY x NULLS FIRST, x NULLS LAST (the same column twice) over UNION ALL: with repartition_sorts (default)
+    // the sort is pushed into the union inputs and SanityCheckPlan rejects the plan
+    let t = vec![Tab { types: vec![Ty::Int, Ty::Str, Ty::Bool], parts: 1, rows: vec![
+        vec![iv(Some(1)), sv(Some("a")), bv(None)], vec![iv(Some(-1)), sv(Some("c")), bv(Some(true))], vec![iv(Some(-1)), sv(Some("a")), bv(None)],
+        vec![iv(Some(2)), sv(Some("")), bv(Some(false))], vec![iv(Some(3)), sv(None), bv(Some(false))], vec![iv(Some(1)), sv(Some("a")), bv(Some(false))],
+        vec![iv(Some(2)), sv(None), bv(Some(true))], vec![iv(Some(1)), sv(Some("b")), bv(Some(true))]] }];
+    let cfgs = vec![cfg(&t, 1, &[]), cfg(&t, 1, &[("datafusion.optimizer.repartition_sorts", "false")])];
+    w.push(Wit { id: "witness-KF-C02-5", kind: "topk", tabs: t, cfgs,
+        sql: "SELECT a1.xa1_0 AS r0, a1.xa1_1 AS r1 FROM ((SELECT a2.c1 AS xa1_0, a2.c1 AS xa1_1 FROM t0 AS a2) UNION ALL (SELECT a3.c1 AS xa1_0, a3.c1 AS xa1_1 FROM t0 AS a3 LEFT SEMI JOIN (SELECT a5.c0 AS xa4_0, a5.c1 AS xa4_1, a5.c2 AS xa4_2 FROM t0 AS a5 WHERE ((a5.c0 <= a5.c0) AND ('a' IN (CAST(NULL AS VARCHAR))))) AS a4 ON ((a3.c1 = a4.xa4_1) OR FALSE))) AS a1 ORDER BY a1.xa1_0 ASC NULLS FIRST, a1.xa1_1 ASC NULLS LAST OFFSET 0",
+        qjson: "[\"limit\",0,null,[\"sort\",[[[\"col\",0,0],false,true],[[\"col\",0,1],false,false]],[\"setop\",\"union\",true,[\"project\",[[\"col\",0,1],[\"col\",0,1]],[\"table\",0]],[\"project\",[[\"col\",0,1],[\"col\",0,1]],[\"semi\",false,[\"or\",[\"cmp\",\"=\",[\"col\",0,1],[\"col\",0,4]],[\"lit\",false]],[\"table\",0],[\"filter\",[\"and\",[\"cmp\",\"<=\",[\"col\",0,0],[\"col\",0,0]],[\"inlist\",false,[\"lit\",\"a\"],[[\"lit\",null]]]],[\"table\",0]]]]]]]" });
+    w
 }
 
 fn witness(rt: &tokio::runtime::Runtime) {
